@@ -12,7 +12,7 @@ CFG = {
             "<= 3 (4) over 8 two-byte strings with 0x00/0xff x {MSDString, Quick3WayString (+unshuffled core), LSDString}; every radix case also runs slices.Sort (op Native) against the specification-level sorted list. "
             "random: lengths 0-13, 14-18, 19-60 and 30-300 (both sides of the insertion cutoff 15); key shapes: uniform small/large range, "
             "ascending, descending, all equal, organ pipe, sawtooth, nearly sorted; integers: all 64-bit patterns, boundary values, one varying "
-            "byte position (all eight), shared top bytes down to the last byte (deepest MSD recursion), extreme top/second-byte buckets (0x00,0x7f,0x80,0xff), both signs; strings: tiny alphabets, shared "
+            "byte position (all eight), shared top bytes down to the last byte (deepest MSD recursion), extreme top/second-byte buckets (0x00,0x7f,0x80,0xff), column shapes (every byte position independently constant 0x00 / constant 0xff / constant other / varying, with a varying position above a constant one; a deterministic sweep over the constant position and short/long slices plus random ones), both signs; strings: fixed-width column shapes of the same kind, tiny alphabets, shared "
             "prefixes of length 0-40, prefixes of one string, all equal, fixed width, bytes 0x00/0xff/all 256. "
             "A case is non-trivial when its input has at least one adjacent inversion (the sort has to move an element); "
             "distinct = distinct (header, element list, op list).",
